@@ -76,8 +76,7 @@ Proof.
   remember (argmin_absR [100; 200; 300] 150) as i eqn:E. clear E.
   destruct i as [|[|[|i]]]; [reflexivity | | | cbn in H1; lia]; exfalso.
   - specialize (H3 0%nat ltac:(lia)). cbn [nth] in H3.
-    replace (200 - 150) with 50 in H3 by lra. replace (100 - 150) with (-50) in H3 by lra.
-    rewrite Rabs_Ropp in H3. lra.
+    rewrite (Rabs_left (100 - 150)) in H3 by lra. rewrite (Rabs_right (200 - 150)) in H3 by lra. lra.
   - specialize (H2 1%nat ltac:(cbn; lia)). cbn [nth] in H2.
     replace (300 - 150) with 150 in H2 by lra. replace (200 - 150) with 50 in H2 by lra.
     rewrite !Rabs_right in H2 by lra. lra.
@@ -176,7 +175,7 @@ Section Geo.
       (x = index = temperatures, y = columns = pressures) is evaluated at (T_geo, P_geo) *)
   Lemma geotherm_axes_l (geo : @frame R) (t : tableR) (Tg Pg : list R) :
     fget "T" geo = Some Tg -> fget "P" geo = Some Pg ->
-    @geotherm_eval R ROps spline default_t_col default_p_col geo t =
+    @geotherm_eval R spline default_t_col default_p_col geo t =
     Some (zipw (fun T P => spline (t_idx t) (t_cols t) (t_vals t) T P) Tg Pg).
   Proof. intros HT HP. unfold geotherm_eval, default_t_col, default_p_col. rewrite HT, HP. reflexivity. Qed.
 
@@ -184,7 +183,7 @@ Section Geo.
       the one named by --p-col to the TEMPERATURE axis (the help strings say so too) *)
   Lemma geotherm_option_wiring (geo : @frame R) (t : tableR) (tc pc : string) (A B : list R) :
     fget tc geo = Some A -> fget pc geo = Some B ->
-    @geotherm_eval R ROps spline tc pc geo t =
+    @geotherm_eval R spline tc pc geo t =
     Some (zipw (fun x_temperature_axis y_pressure_axis =>
                   spline (t_idx t) (t_cols t) (t_vals t) x_temperature_axis y_pressure_axis) B A).
   Proof. intros HA HB. unfold geotherm_eval. rewrite HA, HB. reflexivity. Qed.
@@ -210,7 +209,7 @@ Section Geo.
   Lemma geotherm_passthrough_l (tc pc : string) (tabs : list (string * tableR)) :
     forall (geo out : @frame R),
     NoDup (map fst geo ++ map fst tabs) ->
-    @geotherm R ROps spline tc pc geo tabs = Some out ->
+    @geotherm R spline tc pc geo tabs = Some out ->
     exists cols, out = geo ++ cols /\ map fst cols = map fst tabs.
   Proof.
     induction tabs as [|[v t] r IH]; intros geo out ND H; cbn in H.
@@ -241,7 +240,7 @@ Section Geo.
     (n < length Tg)%nat -> (n < length Pg)%nat ->
     (i < length (t_idx t))%nat -> (j < length (t_cols t))%nat ->
     nth n Tg 0 = nth i (t_idx t) 0 -> nth n Pg 0 = nth j (t_cols t) 0 ->
-    exists out, @geotherm_eval R ROps spline default_t_col default_p_col geo t = Some out /\
+    exists out, @geotherm_eval R spline default_t_col default_p_col geo t = Some out /\
       nth n out 0 = nth j (nth i (t_vals t) []) 0.
   Proof.
     intros C NDx NDy HT HP Hn1 Hn2 Hi Hj ET EP.
